@@ -46,13 +46,15 @@ def parseReq (s : String) : List (Option Nat × Nat) × Nat :=
       | _ => none, c.toNat?.getD 0)
   | _ => ([], 0)
 
-def driveConnect (blk callsS waitsS impl : String) : Verdict :=
+def driveConnect (blk sockS callsS waitsS impl : String) : Verdict :=
   let blocking := blk == "1"
+  -- socket kind 2: the attempt has already been refused, the error (ECONNREFUSED = 111) is what the socket says after the wait
+  let pending : Option Nat := if sockS == "2" then some 111 else none
   let calls := (csv ((callsS.splitOn "calls:").getLastD "")).filterMap parseCall
   let waits := (csv ((waitsS.splitOn "waits:").getLastD "")).filterMap parseWait
   let limit := (kv impl "limit").toNat?.getD U64MAX
   let first := calls.headD (.err ECONNRESET)
-  let out := connectCall blocking limit 1000000000 first waits
+  let out := connectCall blocking limit 1000000000 first waits pending
   let mo := s!"limit={limit} ret={out.ret} errno={out.errno} reqs=c#1 waits={joinWith "," (out.waits.map fun n => s!"w{n}")} flag={boolStr out.blockingAfter} elapsed={out.elapsed} moved=0 lasterr={out.lastErr.getD 0} placed=ok"
   let abn := (words impl).any (fun w => w == "HANG" || w == "ABORT")
   let iwaits := (csv (kv impl "waits")).length
@@ -62,7 +64,7 @@ def driveConnect (blk callsS waitsS impl : String) : Verdict :=
     (if !abn ∧ (kv impl "flag" == "1") != blocking then [s!"[flag-changed] connect left the descriptor {if blocking then "non-blocking" else "blocking"}"] else [])
   { modelOut := mo, blame := if mo == impl then none else some ["C18"],
     spec := [("C16", true, ""), ("C17", true, ""), ("C18", f18.isEmpty, joinWith " ; " f18)],
-    labels := ["connect", if blocking then "blocking" else "nonblocking",
+    labels := ["connect", if blocking then "blocking" else "nonblocking", if pending.isSome then "connect.refused-socket" else "connect.connected-socket",
                if out.ret ≥ 0 then "success" else if out.waits.isEmpty then "fail-nowait" else "fail-after-wait"] }
 
 def driveOne (body impl : String) : Verdict :=
@@ -72,7 +74,7 @@ def driveOne (body impl : String) : Verdict :=
     | [callF, blk, _limitUs, shapeS] =>
       -- `recv:w` / `recvmsg:w` = the same call with MSG_WAITALL: the hooked layers pass flags through
       let call := (callF.splitOn ":").headD callF
-      if call == "connect" then driveConnect blk callsS waitsS impl else
+      if call == "connect" then driveConnect blk shapeS callsS waitsS impl else
       match kindOf call with
       | none => { modelOut := "BADCALL" }
       | some k =>
